@@ -215,6 +215,93 @@ def shallowCopyEq (F : Facts) (P : Prog) (sidx : Nat) (a : GoVal) : Res Bool :=
   | .strct fs, some sd => selfEqFields F P sd.fields fs
   | _, _ => .err
 
+/-! ### values that SHARE element pointers (op `ES`)
+
+The driver builds `x` and `y` from two descriptions and then makes every struct-typed ELEMENT of a list / set / map
+(base-typed keys) of `y` the very pointer of `x`'s element at the same index / key whenever both are non-nil and their
+descriptions are identical (`descEq`). For such an element pair `v.DeepEqual(_src)` answers through `p == ano`. -/
+
+mutual
+/-- identical descriptions (strict: nil ≠ empty, doubles by bit pattern, entries in the given order) -/
+def descEq : GoVal → GoVal → Bool
+  | .nil, .nil => true
+  | .bool a, .bool b => a == b
+  | .int a, .int b => a == b
+  | .dbl a, .dbl b => a == b
+  | .bytes a, .bytes b => a == b
+  | .list a, .list b => descEqList a b
+  | .map a, .map b => descEqPairs a b
+  | .strct a, .strct b => descEqList a b
+  | _, _ => false
+def descEqList : List GoVal → List GoVal → Bool
+  | [], [] => true
+  | x :: xs, y :: ys => descEq x y && descEqList xs ys
+  | _, _ => false
+def descEqPairs : List (GoVal × GoVal) → List (GoVal × GoVal) → Bool
+  | [], [] => true
+  | (k, v) :: xs, (k', v') :: ys => descEq k k' && descEq v v' && descEqPairs xs ys
+  | _, _ => false
+end
+
+/-- the element pair is one shared struct pointer -/
+def sharedElem (e : Ty) (v s : GoVal) : Bool := e.isStruct && !isNilV v && descEq v s
+
+mutual
+def deepEqualSh (F : Facts) (P : Prog) (ty : Ty) (a b : GoVal) : Res Bool :=
+  match ty, a with
+  | .struct _, .nil => .ok (isNilV b)
+  | .struct i, .strct fs =>
+      match b with
+      | .nil => .ok false
+      | .strct gs =>
+          match P.struct? i with
+          | some sd => deepEqFieldsSh F P sd.fields fs gs
+          | none => .err
+      | _ => .err
+  | .list _, .nil => .ok (!F.lenTest || (elemsOf b).length == 0)
+  | .list e, .list xs =>
+      if F.lenTest && xs.length != (elemsOf b).length then .ok false else deepEqElemsSh F P e xs 0 (elemsOf b)
+  | .set _, .nil => .ok (!F.lenTest || (elemsOf b).length == 0)
+  | .set e, .list xs =>
+      if F.lenTest && xs.length != (elemsOf b).length then .ok false else deepEqElemsSh F P e xs 0 (elemsOf b)
+  | .map _ _, .nil => .ok (!F.lenTest || (entriesOf b).length == 0)
+  | .map k v, .map kvs =>
+      if F.lenTest && kvs.length != (entriesOf b).length then .ok false else deepEqEntriesSh F P k v kvs (entriesOf b)
+  | ty, a => .ok (baseEq ty a b)
+termination_by structural a
+def deepEqElemsSh (F : Facts) (P : Prog) (e : Ty) (xs : List GoVal) (i : Nat) (src : List GoVal) : Res Bool :=
+  match xs with
+  | [] => .ok true
+  | v :: r =>
+      match src[i]? with
+      | none => .panic
+      | some s => do
+          let c ← (if sharedElem e v s then .ok true else deepEqualSh F P e v s)
+          if c then deepEqElemsSh F P e r (i + 1) src else .ok false
+termination_by structural xs
+def deepEqEntriesSh (F : Facts) (P : Prog) (k v : Ty) (kvs : List (GoVal × GoVal)) (src : List (GoVal × GoVal)) : Res Bool :=
+  match kvs with
+  | [] => .ok true
+  | (key, val) :: r =>
+      match index k src key with
+      | none =>
+          if F.commaOk then .ok false else do
+          let c ← deepEqualSh F P v val (zeroElem v)
+          if c then deepEqEntriesSh F P k v r src else .ok false
+      | some s => do
+          let c ← (if sharedElem v val s then .ok true else deepEqualSh F P v val s)
+          if c then deepEqEntriesSh F P k v r src else .ok false
+termination_by structural kvs
+def deepEqFieldsSh (F : Facts) (P : Prog) (defs : List FieldDef) (as bs : List GoVal) : Res Bool :=
+  match defs, as, bs with
+  | [], [], [] => .ok true
+  | f :: fs, a :: as, b :: bs => do
+      let c ← (if isPtrField f then .ok (ptrBaseEq f.ty a b) else deepEqualSh F P f.ty a b)
+      if c then deepEqFieldsSh F P fs as bs else .ok false
+  | _, _, _ => .err
+termination_by structural as
+end
+
 /-! ### validate_set inside Write -/
 
 /-- inner loop `for j := i + 1; j < len; j++ { if eq(x, xs[j]) { return err } }` -/
